@@ -25,6 +25,7 @@ def run_check(prop: str, tier: str, repo: Repo = None, write: bool = True, quiet
     ck.assumptions = list(getattr(mod, "ASSUMPTIONS", []))
     try:
         mod.check(ck)
+        _anchored_awaits(ck, prop)
     except AnalysisError as e:
         ck.errors.append(str(e))
     except Exception as e:  # never a traceback-as-violation
@@ -40,6 +41,34 @@ def run_check(prop: str, tier: str, repo: Repo = None, write: bool = True, quiet
             ck.errors.append(f"selftest: internal error {type(e).__name__}: {e}\n{traceback.format_exc(limit=8)}")
     ck.finish(write=write)
     return ck
+
+
+def _anchored_awaits(ck: Check, prop: str):
+    """Rule RA, shared by every property with coroutine anchors: each coroutine created in a function
+    the property is anchored in is awaited, gathered or returned - an un-awaited coroutine puts a
+    coroutine object where the value should be (C08.R1 / C09.R3 decide this for whole packages)."""
+    if prop in ("C08", "C09"):
+        return
+    from . import asyncrules
+    from .anchors import ANCHORS
+    from .q import FuncView
+    from .model import unparse
+
+    with ck.rule("RA"):
+        n = 0
+        for rel, qual in ANCHORS.get(prop, []):
+            mod = ck.repo.by_relpath.get(rel)
+            f = mod.funcs.get(qual) if mod else None
+            if f is None:
+                continue
+            fv = None
+            for c, why in asyncrules.coroutine_calls(ck.repo, f):
+                fv = fv or FuncView(f)
+                n += 1
+                ok, how = asyncrules.consumption(fv, c)
+                ck.ob(f"{f.qualname}: coroutine created by `{unparse(c.func)[:50]}(...)` ({why}) is awaited, gathered or returned", ok, f, c,
+                      construct=f"consumed:{f.qualname}:{unparse(c.func)[:50]}", detail=how)
+        ck.counts["anchored_coroutine_call_sites"] = n
 
 
 def main(argv=None) -> int:
